@@ -323,6 +323,36 @@ fn stub_script(name: &str, answer: usize) -> String
 	format!("#!/bin/sh\nn=$(ls \"$STUB_DIR\"/call-* 2>/dev/null | wc -l)\nf=\"$STUB_DIR/call-$n\"\necho {name} > \"$f.name\"\nfor a in \"$@\"; do printf '%s\\n' \"$a\" >> \"$f.args\"; done\ntouch \"$f.args\"\ncat > \"$f.stdin\"\n{tail}\n")
 }
 
+/// Does some line of the text show this number as a whole number?
+fn shows_number(text: &str, n: i32) -> bool
+{
+	let needle = n.to_string();
+	text.lines().any(|line| {
+		let bytes = line.as_bytes();
+		let mut from = 0;
+		while let Some(pos) = line[from..].find(&needle)
+		{
+			let start = from + pos;
+			let end = start + needle.len();
+			let before_ok = start == 0 || !(bytes[start - 1].is_ascii_digit() || bytes[start - 1] == b'-');
+			let after_ok = end == bytes.len() || !bytes[end].is_ascii_digit();
+			if before_ok && after_ok
+			{
+				return true;
+			}
+			from = end;
+		}
+		false
+	})
+}
+
+/// Are the wanted arguments present in this order (other arguments may stand between them)?
+fn contains_in_order(args: &[String], wanted: &[String]) -> bool
+{
+	let mut it = args.iter();
+	wanted.iter().all(|w| it.any(|a| a == w))
+}
+
 fn judge(c: &Case, w: &mut WorkerCtx)
 {
 	use std::os::unix::fs::PermissionsExt;
@@ -733,9 +763,10 @@ fn judge(c: &Case, w: &mut WorkerCtx)
 					o.set_extension(if wasm { "wasm" } else { std::env::consts::ARCH });
 					want_args.push(if c.output_flag { "custom.bin".to_string() } else { o.to_string_lossy().to_string() });
 				}
-				if args != &want_args
+				// the documented arguments, in this order; further arguments are the tool's business
+				if !contains_in_order(args, &want_args)
 				{
-					violation(w, format!("wrong-backend-arguments:{}", SUBCOMMANDS[c.sub]), format!("the backend was invoked with {args:?}, the documented invocation is {want_args:?}"));
+					violation(w, format!("wrong-backend-arguments:{}", SUBCOMMANDS[c.sub]), format!("the backend was invoked with {args:?}, which does not contain the documented arguments {want_args:?} in this order"));
 				}
 			}
 		}
@@ -758,18 +789,21 @@ fn judge(c: &Case, w: &mut WorkerCtx)
 			{
 				violation(w, "program-output-not-passed-through".to_string(), format!("the program prints {text:?}, which is not in the tool's standard output"));
 			}
-			let line = format!("Output: {status}");
-			if c.verbosity != 1 && !run.stdout.contains(&line)
+			// the tool's own lines: everything but the program's output
+			let own = run.stdout.replacen(text, "", 1);
+			if c.verbosity != 1 && !shows_number(&own, status)
 			{
-				violation(w, "exit-status-of-program-not-shown".to_string(), format!("`{line}` is not shown"));
+				violation(w, "exit-status-of-program-not-shown".to_string(), format!("the program exits with {status}, which the tool does not show"));
 			}
 		}
 		else if c.answer <= 2 && c.verbosity != 1
 		{
-			let line = format!("Output: {}", [0, 1, 3][c.answer]);
-			if !run.stdout.contains(&line)
+			let status = [0, 1, 3][c.answer];
+			// lines that show the command line of the backend do not count
+			let own: String = run.stdout.lines().filter(|l| !l.contains("stubs/")).collect::<Vec<_>>().join("\n");
+			if !shows_number(&own, status)
 			{
-				violation(w, "exit-status-of-backend-not-shown".to_string(), format!("the backend exited with {}, but `{line}` is not shown", [0, 1, 3][c.answer]));
+				violation(w, "exit-status-of-backend-not-shown".to_string(), format!("the backend exited with {status}, which the tool does not show"));
 			}
 		}
 	}
